@@ -24,6 +24,7 @@ EXTRA = {'C19_2': ['C15'], 'C14_1': ['C16'], 'C01_2': ['C05'], 'C04_1': ['C05'],
          'C12_8': ['C04'], 'C14_8': ['C16'], 'C15_8': ['C14'], 'C16_8': ['C20'], 'C19_8': ['C16'],
          'C01_9': ['C08'], 'C05_11': ['C08'], 'C08_12': ['C05'],
          'C05_15': ['C04'], 'C05_16': ['C13'], 'C03_15': ['C18'], 'C03_16': ['C09'], 'C06_15': ['C10'], 'C06_16': ['C04'], 'C01_15': ['C07'],
+         'C13_18': ['C10'], 'C20_17': ['C06'], 'C06_18': ['C09'], 'C03_17': ['C06'], 'C11_17': ['C19'], 'C17_18': ['C20'], 'C11_18': ['C04'],
          'C13_16': ['C02'], 'C07_16': ['C01'], 'C02_16': ['C06'], 'C17_15': ['C03'], 'C15_15': ['C14'], 'C11_16': ['C04']}
 
 
